@@ -26,6 +26,12 @@ func (r *yieldRewriter) rewriteRanges(block *ast.BlockStmt) {
 	astutil.Apply(block, nil, func(c *astutil.Cursor) bool {
 		switch n := c.Node().(type) {
 		case *ast.RangeStmt:
+			if c.Index() < 0 {
+				// the statement of a label: no statement list to put the iterator into.
+				// labels are not supported in generators (rejected later with a diagnostic),
+				// and in an ordinary closure the loop is fine as it is
+				return true
+			}
 			do := func(ctor string, arg ast.Expr) {
 				factory := r.SeqSelect(ctor)
 				iter := X.Call(factory, arg)
